@@ -298,7 +298,13 @@ def _plain(s: str) -> bool:
               "(copying and walking under the tracer), so whole components are checked with marker strings in h_jsx_js")
 def h_jsx_strings(k: int, s: str) -> bool:
     """strings free of backslashes and line breaks are written as double-quoted literals denoting the original text"""
-XX
+    import htmltools._jsx as _j
+    _render_react_js = getattr(_j, "_render_react_js", None)
+    _serialize_attr = getattr(_j, "_serialize_attr", None)
+    _serialize_style_attr = getattr(_j, "_serialize_style_attr", None)
+    if _render_react_js is None or _serialize_attr is None or _serialize_style_attr is None:
+        return True     # private serialiser kernels were refactored away: whole components are still checked by h_jsx_js
+    want = '"' + _esc(s) + '"'
     if k == 0:
         return _render_react_js(s, 0, "\n") == want and _render_react_js(s, 2, "\n") == "    " + want
     if k == 1:
